@@ -12,7 +12,7 @@ SER_FILES = ("ser.rs", "ser_quoting.rs", "wrapping.rs", "zmij_format.rs", "long_
 
 PANIC_CALLS = re.compile(
     r"(panicking::|(^|::)panic(_fmt|_display|_str|_nounwind|_explicit|_any)?$|(^|::)(unwrap|expect|unwrap_err|expect_err)$|RefCell::(borrow|borrow_mut)$|"
-    r"Vec::(remove|swap_remove|insert|drain|split_off|truncate)$|String::(remove|insert|insert_str|drain|split_off|replace_range)$|"
+    r"Vec::(remove|swap_remove|insert|drain|split_off)$|String::(remove|insert|insert_str|drain|split_off|replace_range|truncate)$|"
     r"slice::(copy_from_slice|clone_from_slice|split_at|split_at_mut|chunks|chunks_exact|windows|swap|rotate_left|rotate_right|copy_within)$|"
     r"str::split_at$|VecDeque::(remove|insert|swap)$|unreachable|unwrap_unchecked|LocalKey::with$|Regex::new$|"
     r"(^|::)(abs|pow|div_euclid|rem_euclid|next_power_of_two)$|assert_failed|begin_panic|slice_index|::from_digit$)")
